@@ -1110,12 +1110,24 @@ impl World {
                     Some(UserAct::RequestDiag { app: a, periph: k })
                 } else {
                     let inflight_allowed = r >= ucfg.write_pm + ucfg.diag_pm + ucfg.reset_pm;
-                    let addr = d.addrs[k];
-                    let busy = outstanding.map(|(oa, oaddr)| oa == a && oaddr == addr).unwrap_or(false);
+                    let cur = d.addrs[k];
+                    let busy = outstanding.map(|(oa, oaddr)| oa == a && oaddr == cur).unwrap_or(false);
+                    // a peripheral with a twin at another address moves there (and back)
+                    let addr = match d.cfg.peripherals[k].alt_addr {
+                        Some(alt) if !busy && s.user_rng.chance(1, 2) => {
+                            if cur == alt {
+                                d.cfg.peripherals[k].addr
+                            } else {
+                                alt
+                            }
+                        }
+                        _ => cur,
+                    };
                     if busy && !inflight_allowed {
                         None
                     } else {
                         d.master.get_mut(h).reset_address(addr);
+                        d.addrs[k] = addr;
                         Some(UserAct::ResetAddress {
                             app: a,
                             periph: k,
@@ -1129,8 +1141,13 @@ impl World {
                 match &act {
                     UserAct::WriteQ { .. } => self.stats.inc("user.write_pi_q"),
                     UserAct::RequestDiag { .. } => self.stats.inc("user.request_diagnostics"),
-                    UserAct::ResetAddress { inflight, .. } => {
-                        self.stats.inc(if *inflight { "user.reset_address_inflight" } else { "user.reset_address" })
+                    UserAct::ResetAddress { inflight, addr, periph, app } => {
+                        self.stats.inc(if *inflight { "user.reset_address_inflight" } else { "user.reset_address" });
+                        let moved = self.stations[i].apps[*app].dp().map(|d| d.cfg.peripherals[*periph].alt_addr.is_some() && true).unwrap_or(false);
+                        if moved {
+                            let _ = addr;
+                            self.stats.inc("user.reset_address_of_a_peripheral_with_a_twin");
+                        }
                     }
                     _ => {}
                 }
